@@ -94,8 +94,7 @@ def decide(fn, budget_s=60.0, per_path_timeout=20.0, max_paths=10 ** 9, collect_
     sig = inspect.signature(fn)
     root = ch.RootNode()
     t0 = process_time()
-    paths = confirmed = ignored = unknown = transitions = 0
-    ch.realizations[0] = 0
+    paths = confirmed = ignored = unknown = transitions = realized = 0
     classes = Counter()
     cexs = []
     witnesses = []
@@ -117,10 +116,12 @@ def decide(fn, budget_s=60.0, per_path_timeout=20.0, max_paths=10 ** 9, collect_
                 args = ch.deepcopyext(pre_args, ch.CopyMode.REGULAR, {})
                 ok = None
                 cls = "ok"
+                real0 = ch.realizations[0]
                 with ch.ExceptionFilter() as ef, ch.ResumedTracing():
                     ret = fn(*args.args, **args.kwargs)
                     ok, cls = _split(ret)
                     ok = bool(ok)
+                realized += ch.realizations[0] - real0
                 if ef.ignore:
                     status = ef.analysis.verification_status  # None (ignored) or UNKNOWN
                     if status is None:
@@ -185,7 +186,7 @@ def decide(fn, budget_s=60.0, per_path_timeout=20.0, max_paths=10 ** 9, collect_
     else:
         verdict = "inconclusive"
     return dict(verdict=verdict, paths=paths, confirmed=confirmed, ignored=ignored, unknown=unknown,
-                exhausted=bool(exhausted), transitions=transitions, realizations=ch.realizations[0],
+                exhausted=bool(exhausted), transitions=transitions, realizations=realized,
                 classes=dict(classes), cex=cexs, witnesses=witnesses, unknown_why=dict(unknown_why),
                 cpu_s=round(process_time() - t0, 3))
 
